@@ -41,7 +41,7 @@ type Config struct {
 }
 
 func defaultConfig() Config {
-	return Config{Params: map[string]int64{}, Unwind: 2000, MaxSteps: 5000000, MaxDepth: 200, MaxAlloc: 4096,
+	return Config{Params: map[string]int64{}, Unwind: 100000, MaxSteps: 30000000, MaxDepth: 200, MaxAlloc: 4096,
 		MaxConcretize: 64, MapOrder: "two", Realloc: "double", Preempt: 2, MaxPaths: 2000000, TimeBudgetS: 600,
 		SolverTimeoutMs: 10000, Workers: 16, Solver: Z3, Logic: "QF_UFBV", ValidatePaths: 24}
 }
